@@ -656,6 +656,51 @@ def unsubscribe_while_disconnecting(ctx: Ctx) -> None:
                                       "still up while disconnect() waited for the device", case, trace=sim.trace(40))
 
 
+def camera_slow_images(ctx: Ctx) -> None:
+    """An image whose chunks keep coming but take their time (a busy camera on a weak link): seconds to minutes between chunks, other keys' images and
+    other state messages in between.  Time is not part of the reassembly rule: every completed image is the concatenation of its key's chunks since
+    the previous completion."""
+    from aioesphomeapi import api_pb2 as pb
+
+    res = ctx.res
+    idx = 0
+    for gap in (0.4, 1.5, 6.0, 31.0, 400.0):
+        for nchunks in (2, 5):
+            for other_traffic in (False, True):
+                idx += 1
+                if not ctx.mine(idx):
+                    continue
+                with Sim() as sim:
+                    cli, dconn = session(sim)
+                    got: list[Any] = []
+                    cli.subscribe_states(got.append)
+                    sim.run_for(0.01)
+                    exp: dict[int, bytes] = {1: b"", 2: b""}
+                    order: list[tuple[int, bytes]] = []
+                    for j in range(nchunks):
+                        for key in (1, 2):
+                            if key == 2 and j % 2:
+                                continue       # key 2 gets every other chunk: its image spans the same time with fewer, larger pauses
+                            data = bytes([key, j]) * (20 + j)
+                            last = j == nchunks - 1 or (key == 2 and j == nchunks - 2 and nchunks % 2 == 0)
+                            dconn.send_msg(pb.CameraImageResponse(key=key, data=data, done=last))
+                            exp[key] += data
+                            if last:
+                                order.append((key, exp[key]))
+                        if other_traffic:
+                            dconn.send_msg(pb.SensorStateResponse(key=9, state=float(j)))
+                        sim.run_for(gap)
+                    sim.run_for(0.05)
+                    frames = [(s_.key, bytes(s_.data)) for s_ in got if type(s_).__name__ == "CameraState"]
+                    res.evaluations += 1
+                    res.count("workload/camera-slow-images")
+                    res.sig("camera-slow", gap, nchunks, other_traffic)
+                    case = {"kind": "camera-slow-images", "seconds_between_chunks": gap, "chunks": nchunks, "other_traffic": other_traffic}
+                    if sorted(frames) != sorted(order):
+                        res.violation("C17/camera/image-mismatch", f"chunks {gap}s apart: delivered images {[(k, len(d)) for k, d in frames]}, the chunks sent make "
+                                      f"{[(k, len(d)) for k, d in order]}", case, trace=sim.trace(30))
+
+
 def camera_across_subscriptions(ctx: Ctx) -> None:
     """Reassembly state belongs to ONE subscription of ONE session: chunks left incomplete when a session ends must not leak into the images of the
     next session of the same client, and two subscribe_states() subscribers on one connection each get every complete image, unmixed."""
@@ -825,6 +870,7 @@ def shard(ctx: Ctx) -> None:
     if ctx.shard == 2:
         unsubscribe_positions(ctx)
     unsubscribe_while_disconnecting(ctx)
+    camera_slow_images(ctx)
     if ctx.shard == 3:
         from vf import protoparse
 
